@@ -89,6 +89,7 @@ def check(run):
     depends_on(run, "C02", {"FORMULA"})
     depends_on(run, "C03", {"NEW", "KEY", "COMPL"})
     depends_on(run, "C06", {"COPY", "KEYS", "VALUE", "MERGE", "NOMUT"})    # the default imputer replaces exactly the asked features by stored values; a copied explainer samples from its own (copied) storage
+    depends_on(run, "C14", {"WIRING", "INPUT"})     # the sampled row reaches the model (no answer kept for an earlier row)
     depends_on(run, "C07", {"OBS"})             # the rows sampled from are the storage's current contents
     depends_on(run, "C18", {"E1"})              # the draws come from the global generators, whose state nobody saves / restores
     # ROW clauses of the imputers
